@@ -149,12 +149,27 @@ def variants(case):
 
 # ------------------------------------------------------------------ plotting section (oracle only)
 def gen_plot(rng, tier):
-    n = 6 if tier == "quick" else 60
-    for c in gen(rng, "quick"):
+    n = 24 if tier == "quick" else 300
+    for c in gen(rng, "thorough"):
         if n == 0:
             return
         if c["ends"] is not None and len(c["ends"]) < len({l["t"][1] for l in c["lines"] if len(l["t"]) > 1}):
             continue
+        present = sorted({l["t"][0].rsplit("_", 1)[0] for l in c["lines"] if len(l["t"]) == 1})
+        r = rng.random()
+        if r < 0.3:
+            # an absent sample whose name is a present sample's name plus a strand suffix (the ID of one of its strands)
+            cand = [p + sfx for p in present for sfx in ("_1", "_2") if p + sfx not in present]
+            if cand:
+                c["name"] = rng.choice(cand)
+        elif r < 0.7:
+            # very short blocks (0.005 cM, one base pair): legal, and drawn like any other
+            body = [i for i, l in enumerate(c["lines"]) if len(l["t"]) > 1]
+            for i in sorted(rng.sample(body, min(len(body), rng.randint(1, 3))), reverse=True):
+                l = c["lines"][i]
+                pop = rng.choice([p for p in POPS if p != l["t"][0]])
+                cm = l["cm"] + 50
+                c["lines"].insert(i + 1, {"t": [pop, l["t"][1], str(int(l["t"][2]) + 1), f"{cm/10000:.4f}"], "cm": cm})
         n -= 1
         yield c
 
@@ -173,8 +188,17 @@ def impl_plot(case):
     orig = K.PlotHaplotypeBlock
 
     def rec(block, hapnum, chrom_order, colors, ax, clipmask_perchrom=None):
-        added.append([block["pop"], int(block["chrom"]), round(block["start"] * 10000), round(block["end"] * 10000), hapnum])
-        return orig(block, hapnum, chrom_order, colors, ax, clipmask_perchrom)
+        # what is recorded is the artist that actually lands on the axes: its x-extent and its colour
+        import matplotlib.colors as mc
+
+        n0 = len(ax.collections)
+        r = orig(block, hapnum, chrom_order, colors, ax, clipmask_perchrom)
+        for col in ax.collections[n0:]:
+            xs = [v[0] for v in col.get_paths()[0].vertices[:4]]
+            fc = tuple(round(float(x), 6) for x in col.get_facecolor()[0])
+            pops = [p for p, cname in colors.items() if tuple(round(float(x), 6) for x in mc.to_rgba(cname)) == fc]
+            added.append([pops[0] if len(pops) == 1 else f"colour:{fc}", int(block["chrom"]), round(min(xs) * 10000), round(max(xs) * 10000), hapnum])
+        return r
 
     K.PlotHaplotypeBlock = rec
     import contextlib, io
@@ -269,7 +293,7 @@ CHECK = Check(
             setup=setup,
             teardown=teardown,
             nontrivial=lambda c, o: C.jdump(c),
-            rule="PlotKaryogram end to end on a few of the same files: one rectangle per block of the sample (recorded at PlotHaplotypeBlock), error exit for an absent sample",
+            rule="PlotKaryogram end to end on files of the same generator: one rectangle per block of the sample – read off the artists that actually land on the axes (x-extent and face colour) – incl. blocks only 0.005 cM long; error exit for an absent sample, incl. names that are a present sample's name plus _1/_2",
         ),
     ],
     trusted=["float('…') of short decimal cM tokens and the 1e-4 arithmetic agree with exact decimals after rounding to 1e-4 (tokens have one decimal)", "matplotlib renders the PathCollections it is given"],
